@@ -578,6 +578,32 @@ def WFGraph (ext : Ext) (g : Graph) : Bool :=
   g.edges.all (fun e => e.src < g.nodes.length && e.dst < g.nodes.length && WFDepName e.name && WFKind e.kind) &&
   pairwiseB (fun e f => !(e.src = f.src && e.dst = f.dst)) g.edges
 
+/-! ## Assumed vs. reachable
+
+The conjuncts of `WFGraph` fall in two classes (classification and replays: `checks/c20.py`, `Props/C20.lean`):
+(a) ASSUMPTIONS — enforced by a validating function of forc or by a type invariant; `AssumedGraph` below;
+(b) KNOWN FINDINGS — reachable from a real manifest, the real round trip fails: `?` in a git url, `#` in a
+    git branch/tag, `Rev(s)` with `s ≠ commit`, CIDv1 / empty or `#`/`!`/trailing-whitespace namespace of a
+    registry source, `(` in the source string of a package, two nodes with the same name and source
+    string, `)` in a dependency name.
+The property's predicate demands the round trip of every graph satisfying (a). -/
+
+/-- Class (a) part of `WFPinned`. -/
+def AssumedPinned (ext : Ext) : Pinned → Bool
+  | .member => true
+  | .git repo _ commit => decide (ext.url repo = some repo) && validCommitHash commit
+  | .path root => decide (root < 2 ^ 64)
+  | .ipfs cid => decide (ext.cid cid = some cid) && cidTok cid
+  | .registry name ver cid _ =>
+    noChar '?' name && noChar '(' name &&
+    decide (ext.semver ver = some ver) && verTok ver && decide (ext.cid cid = some cid) && cidTok cid
+
+/-- Class (a) part of `WFGraph`: what manifest validation, `fetch_deps` and the types guarantee. -/
+def AssumedGraph (ext : Ext) (g : Graph) : Bool :=
+  g.nodes.all (fun p => WFName p.name && AssumedPinned ext p.source) &&
+  g.edges.all (fun e => e.src < g.nodes.length && e.dst < g.nodes.length && WFKind e.kind) &&
+  pairwiseB (fun e f => !(e.src = f.src && e.dst = f.dst)) g.edges
+
 /-! ## The properties' own predicates, evaluated by the drivers on the IMPLEMENTATION's result -/
 
 /-- Outcome class of a load. -/
@@ -593,9 +619,10 @@ def Res.cls {α : Type} : Res α → Outcome
 /-- C21: the outcome class of the implementation is a value or an error, never a panic. -/
 def c21PropHolds (impl : Outcome) : Bool := decide (impl ≠ .panic)
 
-/-- C20: for a well-formed graph the implementation's re-read graph is the original one. -/
+/-- C20: for every graph that meets the assumptions (class (a)) the implementation's re-read graph is
+the original one. Graphs of class (b) are NOT excused: they are the known findings. -/
 def c20PropHolds (ext : Ext) (g : Graph) (impl : Res Graph) : Bool :=
-  if WFGraph ext g then
+  if AssumedGraph ext g then
     match impl with
     | .ok h => g.equivB h
     | _ => false
